@@ -62,6 +62,11 @@ TRUSTED_BASE = [
     "numpy refuses in-place modification of arrays with writeable=False, and "
     "views of such arrays are read-only",
     "not modelled: the numerics of the memoised functions (they are the oracle F)",
+    "known finding C17-obj2bytes-dtype: util.obj2bytes hashes ndarray.tobytes() "
+    "without dtype/shape (Coq: C17_obj2bytes_injective_refuted, "
+    "C17_obj2bytes_dtype_collision); C17_ancillary_history_fresh therefore "
+    "carries the guard 'hashed items keep one layout' (C17_obj2bytes_injective_"
+    "partial); re-confirmed on every run by corpus/C17/09-anc-obj2bytes-dtype.json",
 ]
 ASSUMPTIONS = [
     "no object-dtype arrays among the arguments of memoised functions",
@@ -925,6 +930,13 @@ def gen_anc_case(rng):
             ops.append(["circ", rng.randint(0, 999)])
         elif r < 0.45:
             ops.append(["pix", rng.choice([0.34, 0.5])])
+        elif r < 0.53:
+            # same bytes, other dtype (known finding C17-obj2bytes-dtype),
+            # usually right after the dependent feature was cached
+            if rng.random() < 0.7:
+                ops.append(["read", "deform"])
+            ops.append(["circ_dtype", rng.choice(["<i8", "<u8"])])
+            ops.append(["read", "deform"])
         else:
             ops.append(["read", rng.choice(ANC_FEATS)])
     return dict(kind="anc", n=n, ops=ops)
@@ -974,7 +986,9 @@ def run_anc_case(case):
     pix = 0.34
     ds = _anc_dataset(n, None, None, pix)
     fail = None
+    known = None
     reads = 0
+    cached_circ = None     # (bytes, dtype, shape) of circ when deform was computed
     for i, op in enumerate(case["ops"]):
         if op[0] == "mask":
             mask = _anc_masks(n, op[1], mask, op[2])
@@ -983,6 +997,10 @@ def run_anc_case(case):
             rg = _r.Random(op[1])
             circ = np.array([rg.randint(1, 8) / 8.0 for _ in range(n)])
             dclab.set_temporary_feature(ds, "circ", circ.copy())
+        elif op[0] == "circ_dtype":
+            if circ is not None and circ.dtype.str != op[1]:
+                circ = circ.view(op[1]).copy()
+                dclab.set_temporary_feature(ds, "circ", circ.copy())
         elif op[0] == "pix":
             pix = op[1]
             ds.config["imaging"]["pixel size"] = pix
@@ -990,11 +1008,26 @@ def run_anc_case(case):
             okc, vc = safe_call(_anc_read, ds, op[1])
             okf, vf = safe_call(_anc_read, _anc_dataset(n, mask, circ, pix), op[1])
             reads += 1
-            if (okc, vc) != (okf, vf) and fail is None:
-                fail = ("op %d: ds[%r] differs from the same feature of a freshly "
+            if (okc, vc) != (okf, vf):
+                desc = ("op %d: ds[%r] differs from the same feature of a freshly "
                         "built dataset (%s vs %s)" % (
                             i, op[1], "value" if okc else vc, "value" if okf else vf))
-    return dict(fail=fail, nontrivial=reads > 2)
+                # matcher of C17-obj2bytes-dtype: a stale ancillary value whose
+                # only required feature was replaced by an array with
+                # identical bytes but another dtype/shape since it was computed
+                if (op[1] == "deform" and okc and circ is not None
+                        and cached_circ is not None
+                        and circ.tobytes() == cached_circ[0]
+                        and (circ.dtype.str, circ.shape) != cached_circ[1:]):
+                    if known is None:
+                        known = desc + (" [circ replaced: dtype %s -> %s, identical "
+                                        "bytes]" % (cached_circ[1], circ.dtype.str))
+                elif fail is None:
+                    fail = desc
+            elif op[1] == "deform" and okc and circ is not None:
+                cached_circ = (circ.tobytes(), circ.dtype.str, circ.shape)
+    return dict(fail=fail, known=known, known_id="C17-obj2bytes-dtype" if known else None,
+                nontrivial=reads > 2)
 
 
 # --------------------------------------------------------------------------
@@ -1656,9 +1689,14 @@ def load_corpus():
 
 
 def classify(case, desc):
-    """No known finding is registered for C17: the defects found (key
-    collisions, aliasing of cached objects, hashfile positional arguments)
-    are repaired by the proposed fixes."""
+    """Failures that reach this function matched no known finding. The one
+    registered finding, C17-obj2bytes-dtype (util.obj2bytes drops the dtype of
+    arrays: Coq C17_obj2bytes_injective_refuted / C17_obj2bytes_dtype_collision),
+    is recognised where the evidence is at hand, in run_anc_case: stale
+    ds['deform'] AND the replaced `circ` has identical bytes but another
+    dtype/shape than when `deform` was computed; it is reported separately
+    (result key "known"), so that any other failure of the same case is
+    still a violation."""
     return None
 
 
@@ -1767,6 +1805,9 @@ def run(run):
             run.count("hashfile:mtime-bumps", res["bumps"])
             run.count("hashfile:hits", res["hits"])
             run.count("hashfile:misses", res["misses"])
+        if res.get("known"):
+            run.oracle_failure(c, "[%s] %s" % (k, res["known"]), res["known_id"])
+            run.count("anc:known-finding-dtype")
         if res.get("fail"):
             run.oracle_failure(c, "[%s] %s" % (k, res["fail"]), classify(c, res["fail"]))
         if k in MODEL_FN:
@@ -1883,8 +1924,12 @@ def replay(payload):
         shutil.rmtree(scratch, ignore_errors=True)
     print("case:", json.dumps(case)[:3000])
     print("implementation (flat):", str(res.get("flat"))[:1500])
+    if res.get("known"):
+        print("KNOWN FINDING %s:" % res.get("known_id"), res["known"])
     if res.get("fail"):
         print("FAILS:", res["fail"])
+        return 1
+    if res.get("known"):
         return 1
     print("passes on the current tree")
     return 0
